@@ -813,7 +813,7 @@ func compareLists(r *fw.R, be backend, exp []expItem, act *displayList, ops []re
 			if e.role == "stroke" && !fallback && a.widthMM > 0 {
 				mm := matAff(ops[e.op].M)
 				if want := effectiveWidth(mm, st.StrokeWidth); want > 0 {
-					if math.Abs(a.widthMM-want) > 1e-4*want {
+					if !(math.Abs(a.widthMM-want) <= 1e-4*want) {
 						out = append(out, verdict{"stroke-width-" + fam, fmt.Sprintf("%s: the canvas strokes with an effective width of %.6g mm (width %g x view scale), the %s output with %.6g mm; emitted: %s", what, want, st.StrokeWidth, be.name, a.widthMM, a.src)})
 					}
 				}
@@ -862,7 +862,7 @@ func compareLists(r *fw.R, be backend, exp []expItem, act *displayList, ops []re
 					}
 					_ = ok1
 					d := math.Max(math.Max(math.Abs(c1.r*c1.a-c2.r*c2.a), math.Abs(c1.g*c1.a-c2.g*c2.a)), math.Max(math.Abs(c1.b*c1.a-c2.b*c2.a), math.Abs(c1.a-c2.a))) * 255
-					if d > colourTol {
+					if !(d <= colourTol) {
 						bad++
 						if d > worst {
 							worst, at, ce, ca = d, samples[i], c1, c2
@@ -922,7 +922,7 @@ func compareLists(r *fw.R, be backend, exp []expItem, act *displayList, ops []re
 		}
 		ncmp++
 		for ch := 0; ch < 4; ch++ {
-			if math.Abs(ec[i][ch]-ac[i][ch]) > colourTol {
+			if !(math.Abs(ec[i][ch]-ac[i][ch]) <= colourTol) {
 				nbad++
 				if firstBad < 0 {
 					firstBad = i
@@ -948,7 +948,7 @@ func compareLists(r *fw.R, be backend, exp []expItem, act *displayList, ops []re
 						continue
 					}
 					for ch := 0; ch < 4; ch++ {
-						if math.Abs(ec[i][ch]-pc[i][ch]) > colourTol {
+						if !(math.Abs(ec[i][ch]-pc[i][ch]) <= colourTol) {
 							same = false
 						}
 					}
@@ -991,7 +991,7 @@ func compareImage(r *fw.R, be backend, what string, e *expItem, a *item) []verdi
 	cs := func(c [4]oracle.Pt) string {
 		return fmt.Sprintf("TL (%.7f,%.7f) TR (%.7f,%.7f) BR (%.7f,%.7f) BL (%.7f,%.7f)", c[0].X, c[0].Y, c[1].X, c[1].Y, c[2].X, c[2].Y, c[3].X, c[3].Y)
 	}
-	if d > cornerTol {
+	if !(d <= cornerTol) {
 		class := "image-placement-" + fam
 		switch {
 		case dist([4]int{3, 2, 1, 0}) <= cornerTol:
@@ -1139,7 +1139,7 @@ func rasterTally(r *fw.R, c *canvas.Canvas, exp []expItem) {
 			}
 		}
 		for ch := 0; ch < 4; ch++ {
-			if math.Abs(g[ch]-ec[i][ch]) > tol {
+			if !(math.Abs(g[ch]-ec[i][ch]) <= tol) {
 				nbad++
 				break
 			}
